@@ -46,7 +46,7 @@ DOF_W = ["1/4", "1/2", "1", "2", "3", "3/2"]
 # ----------------------------------------------------------------------------------------------------------
 def gen_sub(rng, budget):
     for _ in range(50):
-        t = rng.choice(["RG", "RG", "U", "PS", "PS", "DOF", "DOF", "GL", "HP", "LM", "PSLM"])
+        t = rng.choice(["RG", "RG", "U", "U", "PS", "PS", "DOF", "DOF", "GL", "HP", "LM", "PSLM"])
         if t == "RG":
             nd = rng.choice([1, 1, 2])
             shape = [rng.randint(1, 4) for _ in range(nd)]
